@@ -489,7 +489,7 @@ fn select_n_nodes(
         Ok(selected_nodes)
     } else {
         warn!(
-            live_nodes = total_nodes - 1,
+            live_nodes = total_nodes.saturating_sub(1),
             required_node = n,
             "Failed to meet consistency level due to shortage of live nodes"
         );
